@@ -214,6 +214,21 @@ class Inventory:
                     vals = self.const_values(sc, fn, idx, 0)
                     if vals is not None and vals and all(0 <= v < dim for v in vals):
                         return self.g(site, "component %s of a %d-dimensional point/vector" % (sorted(vals), dim))
+                # element 0 of what `str::split(..)` yields (collected as is, or through map): split always yields at least one item
+                if idx[0] == "k" and idx[1] == "0":
+                    from .cfgq import inline_all, iter_chain
+                    try:
+                        r_ = strip(inline_all(self.prog, args[0]))
+                    except Exception:
+                        r_ = args[0]
+                    while r_[0] == "call" and short_callee(r_[1]) in ("deref", "as_slice", "as_ref", "borrow") and r_[2]:
+                        r_ = strip(r_[2][0])
+                    if r_[0] == "call" and short_callee(r_[1]) == "collect" and r_[2]:
+                        x_ = strip(r_[2][0])
+                        while x_[0] == "call" and short_callee(x_[1]) in ("map", "into_iter", "iter") and x_[2]:
+                            x_ = strip(x_[2][0])
+                        if x_[0] == "call" and short_callee(x_[1]) in ("split", "rsplit", "split_inclusive") and "str" in x_[1]:
+                            return self.g(site, "first item of str::split(..), which always yields at least one item")
                 if idx[0] == "k" and self.len_guard(cdescs, recv, int(idx[1]) + 1 if idx[1].isdigit() else 1):
                     return self.g(site, "constant index under a dominating length test of %s" % recv)
                 if self.index_in_range(sc, body, idx, recv, cdescs):
